@@ -90,7 +90,9 @@ func (k *RoutineContainer) WaitExited(ctx context.Context, returnIfNotRunning bo
 				// errCh was closed
 				return context.Canceled
 			}
-			return err
+			if err != nil {
+				return err
+			}
 		case <-waitCh:
 		}
 	}
